@@ -49,6 +49,7 @@ def c29Step (st : C29State) (line : String) : C29State × String :=
     | some b => (.gate { holder := none, cond := b }, "ok")
     | none => (.idle, "bad-op")
   | ["run", "queue", _, _, _, _, _] => (.queue {}, "ok")
+  | ["run", "qlong", _, _, _, _] => (.queue {}, "ok")
   | ts =>
     match st with
     | .idle => (st, "bad-op")
